@@ -39,7 +39,16 @@
 (* (C) the recipe table Rows / Recipe / Eval and the apply machine          *)
 (*     [buf, k, err] with the action ApplyOne (one step per relocation, as  *)
 (*     the loop a consumer runs; it halts at the first refused entry).      *)
-(* TLC checks on the specification itself: DecodeRoundTrip (reader o writer *)
+(* (D) the load machine (mode "loads"): ONE opened file is asked for its     *)
+(*     debug sections several times, each time with its own                 *)
+(*     relocate_dwarf_sections flag (action Load(flag), every flag sequence *)
+(*     of 2..MaxCalls calls); each call's answer is a function of the flag   *)
+(*     alone - the relocated buffer / the refusal of the apply machine for   *)
+(*     TRUE, the original bytes for FALSE - whatever was asked before, and   *)
+(*     an answer handed out earlier keeps its bytes.                         *)
+(* TLC checks on the specification itself: LoadsHistoryFree,                *)
+(* LoadsDiscriminate (the two flags have different answers on every loads   *)
+(* object, so a sticky flag is visible), DecodeRoundTrip (reader o writer *)
 (* = identity, entry count = size / entsize), RelrMachineIsDenotation,      *)
 (* RelrRoundTrip (Dec(Enc(addresses)) = addresses), AddressesStrictly-      *)
 (* Increasing, RelrNoWrap, ApplyTouchesOnlyField (action property: one step *)
@@ -473,6 +482,25 @@ OtherSyms(cls, k) == IF k = "short" THEN SubSeq(Syms(cls), 1, 3)
 TwoPlans == UNION {{TwoObj(m, fl, OneClass(m), le, Syms(OneClass(m)), OtherSyms(OneClass(m), k)) :
                       le \in BOOLEAN, k \in {"short", "other"}, fl \in AdmittedFl(m)} : m \in Machines}
 
+\* loads: a small relocated section per (table row with a field, admitted flavour, class, byte order): three relocations
+\* (symbols 2, 3, 6; r_addend 5, 7, -1 in RELA tables, the filler in REL tables) at an aligned, an odd and the last offset
+LoadLen == 32
+LoadObj(row, fl, cls, le) ==
+  LET ws == Wsz(cls)
+      add(k) == IF fl = "RELA" THEN DTrunc(ValuePool[k], ws) ELSE DZero(ws)
+  IN [cls |-> cls, le |-> le, machine |-> row.m, rela |-> fl = "RELA", data |-> Filler(LoadLen), syms |-> Syms(cls), sub |-> row.name,
+      relocs |-> <<Entry(LEn(4, ws), LEn(2, 4), Type4(row.t), add(2), 0, 0, 0),
+                   Entry(LEn(13, ws), LEn(3, 4), Type4(row.t), add(7), 0, 0, 0),
+                   Entry(LEn(LoadLen - row.w, ws), LEn(6, 4), Type4(row.t), add(6), 0, 0, 0)>>]
+LoadPlans ==
+  UNION {{LoadObj(r, fl, cls, le) : cls \in ClassesOf(r.m), le \in BOOLEAN, fl \in {x \in r.fl : Recipe(r.m, r.t, x).kind = "ok"}} :
+           r \in {x \in Rows : x.w > 0}}
+  \* ... and objects a relocating load must refuse (good entry first, refused entry second), every time it is asked
+  \cup {o \in ErrPlans : o.sub \in {"flavour", "symbol"} /\ o.le /\ Len(o.relocs) = 2 /\ NatOf(o.relocs[1].off) = 4}
+MaxCalls == 3
+\* the answer to get_dwarf_info(relocate_dwarf_sections = flag): a function of the object and the flag
+LoadAnswer(o, flag) == IF flag THEN Apply(o) ELSE [buf |-> o.data, err |-> ""]
+
 \* decode alphabets (one entry = one choice of every field; extremes and asymmetric patterns)
 Pool32 == << Entry(<<0, 0, 0, 0>>, <<0, 0, 0, 0>>, <<0, 0, 0, 0>>, <<0, 0, 0, 0>>, 0, 0, 0),
              Entry(<<1, 0, 0, 128>>, <<86, 52, 18, 0>>, <<120, 0, 0, 0>>, <<255, 255, 255, 255>>, 0, 0, 0),
@@ -523,6 +551,8 @@ Init ==
        [] Mode = "twotabs" -> \E p \in TwoPlans : obj = p /\ phase = "done" /\ st = Idle
        [] Mode = "errors" ->
             \E o \in ErrPlans : obj = o /\ phase = "read" /\ st = [Idle EXCEPT !.buf = o.data, !.k = 1]
+       [] Mode = "loads" ->
+            \E o \in LoadPlans : obj = o /\ phase = "read" /\ st = [Idle EXCEPT !.buf = o.data, !.k = 1]
        [] Mode = "relr" ->
             \E cls \in {32, 64}, le \in BOOLEAN : \E a \in {AscDigits(RelrAnchors(cls))[x] : x \in 1..FirstAnchors} :
                /\ obj = [cls |-> cls, le |-> le, machine |-> IF cls = 32 THEN EM_ARM ELSE EM_X86_64, words |-> <<a>>,
@@ -579,15 +609,21 @@ RelrHalt ==
 
 \* --- the apply loop
 ApplyOne ==
-  /\ Mode \in {"apply", "errors"} /\ phase = "read" /\ st.err = "" /\ st.k <= Len(obj.relocs)
+  /\ Mode \in {"apply", "errors", "loads"} /\ phase = "read" /\ st.err = "" /\ st.k <= Len(obj.relocs)
   /\ LET r == ApplyStep(obj, st.buf, 0, obj.relocs[st.k]) IN st' = [st EXCEPT !.buf = r.buf, !.err = r.err, !.k = @ + 1]
   /\ UNCHANGED <<Mode, obj, phase>>
 ApplyHalt ==
-  /\ Mode \in {"apply", "errors"} /\ phase = "read" /\ ~(st.err = "" /\ st.k <= Len(obj.relocs))
-  /\ phase' = "done"
+  /\ Mode \in {"apply", "errors", "loads"} /\ phase = "read" /\ ~(st.err = "" /\ st.k <= Len(obj.relocs))
+  /\ phase' = IF Mode = "loads" THEN "calls" ELSE "done"
   /\ UNCHANGED <<Mode, obj, st>>
+\* --- the load machine: one more request on the same opened file; st.out = the answers handed out so far.  A relocating
+\* request answers with what the apply machine computed (st.buf / st.err), the other one with the section as it is in the file.
+Load(flag) ==
+  /\ Mode = "loads" /\ phase = "calls" /\ Len(st.out) < MaxCalls
+  /\ st' = [st EXCEPT !.out = Append(@, [flag |-> flag, buf |-> IF flag THEN st.buf ELSE obj.data, err |-> IF flag THEN st.err ELSE ""])]
+  /\ UNCHANGED <<Mode, obj, phase>>
 
-Next == AddEntry \/ AddWord \/ Finish \/ Anchor \/ Bitmap \/ RelrHalt \/ ApplyOne \/ ApplyHalt
+Next == AddEntry \/ AddWord \/ Finish \/ Anchor \/ Bitmap \/ RelrHalt \/ ApplyOne \/ ApplyHalt \/ \E flag \in BOOLEAN : Load(flag)
 Spec == Init /\ [][Next]_vars
 
 (* ------------------------------ emission ------------------------------- *)
@@ -630,8 +666,17 @@ TwoB == [obj EXCEPT !.syms = obj.syms2]
 TwoCase == LET a == obj   b == TwoB   ra == Apply(a)   rb == Apply(b) IN
            [mode |-> Mode, cls |-> a.cls, le |-> a.le, machine |-> a.machine, rela |-> a.rela, chunks |-> Chunks(TwoImage(a, b)),
             a |-> [orig |-> a.data, bytes |-> ra.buf, err |-> ra.err], b |-> [orig |-> b.data, bytes |-> rb.buf, err |-> rb.err]]
-Emit == phase = "done" => IF Mode = "apply" THEN EmitParts ELSE IF Mode = "twotabs" THEN Put(TwoCase)
-                          ELSE Put(IF IsTable THEN TableCase ELSE IF Mode = "dyn" THEN DynCase ELSE RelrCase)
+\* loads: the image, the two possible answers (orig / bytes or err) and per call <<flag, refusal, which of the two buffers>>
+LoadsCase ==
+  [mode |-> Mode, sub |-> obj.sub, cls |-> obj.cls, le |-> obj.le, machine |-> obj.machine, rela |-> obj.rela,
+   chunks |-> Chunks(RelocImage(obj)), orig |-> obj.data, bytes |-> st.buf, err |-> st.err,
+   calls |-> [i \in 1..Len(st.out) |-> <<st.out[i].flag, st.out[i].err,
+                                          IF st.out[i].err # "" THEN "none" ELSE IF st.out[i].buf = obj.data THEN "orig" ELSE "bytes">>]]
+\* (of the sequences of three calls only the alternating ones TFT / FTF add something to the four of two calls)
+Emit == IF Mode = "loads" THEN (phase = "calls" /\ Len(st.out) >= 2
+                                /\ (Len(st.out) = 3 => (st.out[1].flag # st.out[2].flag /\ st.out[2].flag # st.out[3].flag))) => Put(LoadsCase)
+        ELSE phase = "done" => IF Mode = "apply" THEN EmitParts ELSE IF Mode = "twotabs" THEN Put(TwoCase)
+                               ELSE Put(IF IsTable THEN TableCase ELSE IF Mode = "dyn" THEN DynCase ELSE RelrCase)
 
 (* ------------------------------ properties ----------------------------- *)
 \* the symbol table a relocation table designates decides: the two results of a twotabs pair differ (other values) or the second is refused
@@ -639,6 +684,13 @@ TwoTablesDiffer == Mode = "twotabs" => LET ra == Apply(obj)   rb == Apply(TwoB) 
                                          /\ ra.err = "" /\ (rb.err = "symbol" \/ (rb.err = "" /\ rb.buf # ra.buf))
                                          /\ ChunksDisjoint(TwoImage(obj, TwoB))
 Done == phase = "done"
+\* every answer of the load machine is the declarative answer to its own flag, wherever it stands in the sequence
+LoadsHistoryFree ==
+  (Mode = "loads" /\ phase = "calls") =>
+     \A i \in 1..Len(st.out) : LET a == LoadAnswer(obj, st.out[i].flag) IN st.out[i].err = a.err /\ (a.err = "" => st.out[i].buf = a.buf)
+\* the two flags have different answers on every loads object (a refusal, or relocated bytes that differ from the original ones)
+LoadsDiscriminate ==
+  (Mode = "loads" /\ phase = "calls") => LET a == Apply(obj) IN a.err # "" \/ a.buf # obj.data
 \* reader o writer = identity; the entry count is size / entry size
 DecodeRoundTrip ==
   (IsTable /\ Done) =>
@@ -658,7 +710,7 @@ AddressesStrictlyIncreasing ==
 RelrNoWrap == Mode \in {"relr", "relrset"} => ~st.wrapped
 \* one apply step changes nothing outside the field of the relocation it applies
 ApplyFrame ==
-  (Mode \in {"apply", "errors"} /\ phase = "read" /\ st'.k = st.k + 1) =>
+  (Mode \in {"apply", "errors", "loads"} /\ phase = "read" /\ st'.k = st.k + 1) =>
      LET f == FieldOf(obj, st.k) IN
      /\ Len(st'.buf) = Len(st.buf)
      /\ \A i \in 1..Len(st.buf) : (i <= f[1] \/ i > f[1] + f[2]) => st'.buf[i] = st.buf[i]
@@ -685,7 +737,7 @@ OutcomeDefined ==
      /\ (Mode = "errors" => st.err = obj.sub)
 \* well-formedness of what the writers produce: fields inside the section
 FieldsInside ==
-  (Mode \in {"apply", "errors"} /\ Done) =>
+  ((Mode \in {"apply", "errors"} /\ Done) \/ Mode = "loads") =>
      \A j \in 1..Len(obj.relocs) : LET f == FieldOf(obj, j) IN f[1] + (IF f[2] = 0 THEN 8 ELSE f[2]) <= Len(obj.data)
 
 \* the dynamic image: chunks disjoint, every table lies inside the PT_LOAD mapping, the section and the tags designate the same bytes
